@@ -123,3 +123,6 @@ package model
 //@     cond(is(a, SliceTypecastAssignment), as(a, SliceTypecastAssignment).LHS, otherAssignText(a)))))))
 //@ spec covers(a Assignment, l string) bool = a != nil && (is(a, NestStruct) || lhsText(a) == l)
 //@ spec under(a Assignment, p string) bool = a != nil && (is(a, NestStruct) || hasPrefix(lhsText(a), p))
+
+//@ func (*Manipulator).FuncName(m) (r)
+//@   ensures {C10} r == cond(m.Pkg != "", m.Pkg + "." + m.Name, m.Name)
